@@ -11,11 +11,14 @@ import time
 sid, wt, props = sys.argv[1], sys.argv[2], sys.argv[3:]
 out = f"/verif/seeded/{sid}"
 os.makedirs(out, exist_ok=True)
-patch = subprocess.run(["git", "-C", wt, "diff", "--", "emu_base", "emu_mps", "emu_sv"], capture_output=True, text=True).stdout
-open(f"{out}/patch.diff", "w").write(patch)
-for f in ("demo.py", "NOTES.md"):
-    if os.path.exists(f"{wt}/{f}"):
-        shutil.copy(f"{wt}/{f}", f"{out}/{f}")
+if os.path.isdir(wt):
+    patch = subprocess.run(["git", "-C", wt, "diff", "--", "emu_base", "emu_mps", "emu_sv"], capture_output=True, text=True).stdout
+    open(f"{out}/patch.diff", "w").write(patch)
+    for f in ("demo.py", "NOTES.md"):
+        if os.path.exists(f"{wt}/{f}"):
+            shutil.copy(f"{wt}/{f}", f"{out}/{f}")
+else:  # the scratch worktree is gone: re-evaluate from what was kept under seeded/<id>/
+    patch = open(f"{out}/patch.diff").read()
 scratch = f"/var/tmp/seed_eval_{sid}"
 shutil.rmtree(scratch, ignore_errors=True)
 os.makedirs(scratch)
